@@ -50,10 +50,12 @@ Lemma scan_children_ext s s' n : same_layers s s' -> scan_children s n = scan_ch
 Proof.
   intros H. unfold scan_children. rewrite (node_stat_ext s s' n H), (scan_reals_ext s s' _ H). reflexivity.
 Qed.
+Lemma load1_ext s s' n : same_layers s s' -> load1 s n = load1 s' n.
+Proof. intros H. unfold load1. rewrite (scan_children_ext s s' n H). reflexivity. Qed.
 Lemma load_node_ext s s' f : same_layers s s' -> forall n, load_node f s n = load_node f s' n.
 Proof.
   intros H. induction f as [|f IHf]; intros n; cbn [load_node]; [reflexivity|].
-  rewrite (node_stat_ext s s' n H), (scan_children_ext s s' n H).
+  rewrite (node_stat_ext s s' n H), (load1_ext s s' n H).
   destruct (n_wh n); [reflexivity|]. destruct (node_stat s' n) as [[]|]; try reflexivity.
   f_equal. apply map_ext. intros kv. rewrite IHf. reflexivity.
 Qed.
@@ -254,7 +256,7 @@ Proof.
       assert (Hsc : scan_children s (Node (r :: rs) false false []) =
                     Ok (map (fun kv => (fst kv, new_from_reals (snd kv))) all)).
       { unfold scan_children. rewrite Hst. cbn [is_dirT negb n_reals]. rewrite Hscan. reflexivity. }
-      rewrite Hsc. unfold set_loaded; cbn [n_reals n_wh n_ch n_loaded].
+      unfold load1; cbn [n_loaded]. rewrite Hsc. unfold set_loaded; cbn [n_reals n_wh n_ch n_loaded].
       rewrite (fold_aset_nodup _ []).
       2:{ cbn [app]. rewrite map_map. cbn [fst]. eapply keys_scan; [|exact Hscan]. constructor. }
       cbn [app view_node n_wh first_real_tree n_reals]. rewrite Hr. cbn [resolve].
@@ -306,6 +308,20 @@ Proof.
     + apply (lower_reals_cons None ls nx ls 0); [intros i t' H; exact H|assumption].
   - destruct u as [t|]; cbn [app]; [reflexivity|]. destruct ls; reflexivity.
 Qed.
+Lemma load1_reals s n : n_reals (load1 s n) = n_reals n /\ n_wh (load1 s n) = n_wh n.
+Proof. unfold load1. destruct (n_loaded n); [auto|]. destruct (scan_children s n); auto. Qed.
+Lemma scan_children_reals s n n' : n_reals n = n_reals n' -> scan_children s n = scan_children s n'.
+Proof. intros H. unfold scan_children, node_stat. rewrite H. reflexivity. Qed.
+Lemma load1_idem s n : load1 s (load1 s n) = load1 s n.
+Proof.
+  destruct (n_loaded n) eqn:El.
+  - unfold load1. rewrite El. rewrite El. reflexivity.
+  - destruct (scan_children s n) as [cs|e] eqn:E.
+    + assert (H : load1 s n = set_loaded cs n) by (unfold load1; rewrite El, E; reflexivity).
+      rewrite H. unfold load1 at 1. cbn [set_loaded n_loaded]. reflexivity.
+    + assert (H : load1 s n = n) by (unfold load1; rewrite El, E; reflexivity).
+      rewrite H. exact H.
+Qed.
 (* import() already loaded the root; loading it again gives what loading the un-imported root gives *)
 Lemma load_imported_root u ls nx f :
   let s0 := fresh0 u ls nx in
@@ -316,15 +332,11 @@ Proof.
   cbn [nget]. change (n_loaded (root s0)) with false. cbn iota.
   destruct (scan_children s0 (root s0)) as [cs|e] eqn:E; rewrite ?E; [|reflexivity].
   unfold mod_node; cbn [snd root nupd].
-  cbn [load_node]. change (n_wh (set_loaded cs (root s0))) with false. change (n_wh (root s0)) with false. cbn iota.
-  assert (Hst : node_stat s0 (set_loaded cs (root s0)) = node_stat s0 (root s0)) by reflexivity.
-  rewrite Hst. destruct (node_stat s0 (root s0)) as [[m x ch| | |]|] eqn:Es.
-  - change (n_loaded (set_loaded cs (root s0))) with true. change (n_loaded (root s0)) with false. cbn iota.
-    rewrite E. reflexivity.
-  - unfold scan_children in E. rewrite Es in E. discriminate.
-  - unfold scan_children in E. rewrite Es in E. discriminate.
-  - unfold scan_children in E. rewrite Es in E. discriminate.
-  - unfold scan_children in E. rewrite Es in E. discriminate.
+  cbn [load_node]. destruct (load1_reals s0 (root s0)) as [Hr Hw]. rewrite Hw.
+  assert (Hst : node_stat s0 (load1 s0 (root s0)) = node_stat s0 (root s0)) by (unfold node_stat; rewrite Hr; reflexivity).
+  rewrite Hst, load1_idem. change (n_wh (root s0)) with false. cbn iota.
+  destruct (node_stat s0 (root s0)) as [[m x ch| | |]|] eqn:Es; [rewrite ?Hw; reflexivity| | | |].
+  all: exfalso; revert E; unfold scan_children; rewrite Es; cbn [is_dirT negb]; discriminate.
 Qed.
 
 Theorem scan_is_merge u ls nx : Forall layer_ok (all_layers u ls) ->
